@@ -71,6 +71,10 @@ def Or(*cs):
         if k not in seen:
             seen.add(k)
             o2.append(c)
+    # complementary pair -> true
+    for c in o2:
+        if z3.is_not(c) and c.arg(0).get_id() in seen:
+            return TRUE
     if len(o2) == 1:
         return o2[0]
     return z3.Or(*o2)
